@@ -82,13 +82,20 @@ impl List {
         empty: bool,
         compact: bool,
     ) -> Result<Self, Error> {
-        // Compute array size
-        let array_size = if compact { coupon_count } else { 1 << lg_arr };
+        // The container always has 2^lg_arr slots; a compact image only stores the
+        // `coupon_count` occupied ones, so the restored list keeps room for further updates.
+        if lg_arr > 8 || coupon_count > (1usize << lg_arr) {
+            return Err(Error::deserial(format!(
+                "invalid list size: lg_arr {lg_arr}, coupon_count {coupon_count}"
+            )));
+        }
+        let array_size = 1usize << lg_arr;
+        let stored = if compact { coupon_count } else { array_size };
 
         // Read coupons
         let mut coupons = vec![0u32; array_size];
         if !empty && coupon_count > 0 {
-            for (i, coupon) in coupons.iter_mut().enumerate() {
+            for (i, coupon) in coupons.iter_mut().take(stored).enumerate() {
                 *coupon = cursor.read_u32_le().map_err(|_| {
                     Error::insufficient_data(format!(
                         "expect {coupon_count} coupons, failed at index {i}"
